@@ -14,6 +14,22 @@ def objects(conn):
 
 
 def write_step(rng, conn, state):
+    """one committed write transaction by another connection; returns its description.  A step that SQLite refuses in the state
+    the history has reached (a column no longer there, a key that exists) is replaced by a plain insert."""
+    try:
+        return _write_step(rng, conn, state)
+    except sqlite3.Error as e:
+        try:
+            conn.execute("ROLLBACK")
+        except sqlite3.Error:
+            pass
+        conn.execute("CREATE TABLE IF NOT EXISTS filler2(a)")
+        conn.execute("INSERT INTO filler2 DEFAULT VALUES")
+        state["touched"] = "filler2"
+        return "insert into filler2 (a step was refused by SQLite: %s)" % str(e)[:60]
+
+
+def _write_step(rng, conn, state):
     """one committed write transaction by another connection; returns its description"""
     tabs, idx = objects(conn)
     kinds = ["insert", "insert", "update", "update", "delete", "grow", "reuse", "create_table", "create_index", "drop_index", "drop_table", "alter", "vacuum", "recreate",
@@ -122,7 +138,7 @@ def write_step(rng, conn, state):
         conn.execute("DELETE FROM %s WHERE rowid %% 7 IN (4, 5, 6)" % t)
         return "delete 3 of every 7 rows of %s" % t
     conn.execute("CREATE TABLE IF NOT EXISTS filler(a, b)")
-    conn.execute("INSERT INTO filler(a, b) VALUES(1, 2)")
+    conn.execute("INSERT INTO filler DEFAULT VALUES")
     return "insert into filler"
 
 
@@ -324,7 +340,11 @@ def one_history(run, rng, wd, hid, page_size, steps, rows0, dist, real_file, wit
         for s_ in (impl, model):
             if s_:
                 s_.cmd("reload %s" % path)
-        probes = point_probes(rng, conn)
+        try:
+            probes = point_probes(rng, conn)
+        except sqlite3.Error as e:
+            run.notes.append("point probes skipped after [%s]: %s" % (what, e))
+            probes = []
         first = probes[:]
         rng.shuffle(first)
         # the very first call goes to the table the commit touched, its kind (rowid lookup, primary key lookup, equality lookup
